@@ -49,6 +49,8 @@ def depth_from(n, edges, root):
 
 def make_case(n, edges, atom, rng, table):
     pos = gen.walk_geometry(n, edges, rng, lo=0.1, hi=0.5)
+    if rng.random() < 0.2:
+        pos = pos + np.round(rng.uniform(-9000, 9000, 3), 3)          # box-scale offset
     if table == "measured":
         lengths = [float(np.linalg.norm(pos[a] - pos[b])) for a, b in edges]
     else:
@@ -183,6 +185,9 @@ def displ_case(draw):
     rng = np.random.default_rng(draw(gen.SEEDS))
     scale = draw(st.sampled_from([1.0, 1.0, 1.0, 10.0, 1e-2, 1e-4, 1e-6]))       # the unit of length is the caller's choice
     pos = gen.walk_geometry(n, edges, rng, lo=0.1, hi=0.5) * scale
+    if draw(st.integers(0, 3)) == 0:
+        # far from the origin compared with the bond lengths (up to 1e5 bond lengths away, e.g. 9000 nm for 0.1 nm bonds)
+        pos = pos + np.round(rng.uniform(-9000, 9000, 3), 3) * scale
     lengths = [float(np.linalg.norm(pos[a] - pos[b])) for a, b in edges]
     if draw(st.booleans()):
         lengths = (rng.uniform(0.05, 0.8, len(edges)) * scale).tolist()       # a bond table that disagrees with the current geometry
@@ -235,9 +240,11 @@ def check_displ(case):
     if not np.all(np.isfinite(out)):
         raise PropertyViolation("displ-finite", "move_mol_atom without displacement gives non-finite coordinates")
     if ndm > 0:
+        # (dm is recovered by subtracting two positions: its own rounding, eps x |position|, limits what can be asked)
+        tol_c = 1e-9 + 16 * np.finfo(float).eps * float(np.abs(pos).max()) / ndm
         for r in refs:
             c = abs(float(dm @ r)) / (ndm * np.linalg.norm(r))
-            if not c <= 1e-9:
+            if not c <= tol_c:
                 raise PropertyViolation("displ-perpendicular", "move_mol_atom(displ=None): the drawn displacement is not "
                                         "perpendicular to %s: |cos|=%.3e (atom with %d neighbours)" % (what, c, len(nbrs)),
                                         cls="displ-perpendicular:%d" % min(len(nbrs), 3))
